@@ -1967,14 +1967,20 @@ class Translator:
 
     def add_reach(self, lines, cn):
         out = []; k = 0
+        hook = cn in self.cfg.get('exit_hooks', [])       # ghost hook of the spec at every exit (void functions only)
+        def exit_hook(ind):
+            if hook: out.extend([f'#ifdef FN_EXIT_{cn}', f'{ind}FN_EXIT_{cn};      /* ghost hook of the spec */', '#endif'])
         for l in lines:
             st = l.strip()
             if st.startswith('return') and (st == 'return;' or st.startswith('return ')):
                 ind = l[:len(l) - len(l.lstrip())]
+                if hook and st != 'return;': raise Unsupported(f'exit hook on {cn}, which returns a value')
+                exit_hook(ind)
                 out.append(f'{ind}VACUITY_REACH({cn}, {k});'); k += 1
             out.append(l)
         last = [l.strip() for l in lines if l.strip() not in ('}', '{')]
         if not last or not last[-1].startswith('return'):
+            exit_hook('  ')
             out.append(f'  VACUITY_REACH({cn}, {k});')
         return out
 
